@@ -153,7 +153,12 @@ func verifyUnit0(p *Prog, unit string) *UnitResult {
 	if strings.HasPrefix(key, "lemma:") {
 		return verifyLemma(p, pkg, unit, strings.TrimPrefix(key, "lemma:"))
 	}
-	fn := p.FindFunc(pkg, key)
+	// "Func@variant": a second contract for the same function (proved separately, never used at call sites)
+	fnKey := key
+	if i := strings.Index(key, "@"); i > 0 {
+		fnKey = key[:i]
+	}
+	fn := p.FindFunc(pkg, fnKey)
 	if fn == nil {
 		res.Err = fmt.Sprintf("contract does not bind: function %s not found in %s", key, pkg)
 		return res
